@@ -948,6 +948,215 @@ def shrink_reconf(c, sig):
     return best
 
 
+# ---- fan-out: ONE packet object inside several wires at once (replayed per wire by the model + per-wire oracle) ----
+# The library hands packet *objects* on: `Hub.put` gives the very object it received to every attached port, a repeater or a
+# broadcast medium does the same.  A packet is then inside 2-4 independent wires at once, and every wire owes it its own
+# "delivered at max(a + d, previous delivery), never held longer than that" - with a = the instant it entered THAT wire and d = the
+# delay THAT wire's distribution yielded for it - whatever the other wires holding the same object do with it in the meantime.
+# Workload: 2-4 wires with different delay laws (scales 1/4 .. 8) and loss rates, fed (a) *shared* packets - one source hands the same
+# object to several wires in the same instant, either directly (`w.put(p)` for each) or through a real `Hub` whose ports are the wires
+# (station s sends: every other station's wire gets the object) - and (b) *private* packets put into one wire only, so that the
+# backlogs differ and a shared packet is still queued in one wire's store when another wire delivers it.  Every shared object
+# enters each wire at most once and all its puts fall into one instant; the far ends are terminal stations.  (The same object put
+# into the SAME wire again while an earlier copy is still queued there is not generated: see the report / DESIGN 3.)
+# Each wire is an independent history for the model: its own put / loss-draw / delay sequence goes through the `fifo` replay as a
+# case of its own, and `oracle_wire` restates the clause for each wire separately (entry instants recorded by the harness at `put`,
+# delays recorded by wrapping that wire's delay distribution).
+
+ASSUMPTIONS.append(
+    'fan-out cases: the same Packet object is handed to 2-4 wires in one instant (directly, or by a real Hub whose ports are the wires) next to private '
+    'traffic per wire; every wire is replayed as an independent model instance fed only with its own arrivals and draws and judged by the per-wire oracle '
+    '(entry instant = the instant of the put into that wire, delay = what that wire\'s own delay_dist returned for it). An object enters each wire at most '
+    'once; re-sending the same object into a wire that still holds an earlier copy of it is outside these cases')
+
+FAN_SCALES = [0.25, 0.5, 1, 2, 4, 8]
+
+
+def fanout_case(rng, cid):
+    nw = rng.randint(2, 4)
+    via = rng.choice(['direct', 'hub', 'hub'])
+    scales = rng.sample(FAN_SCALES, nw)
+    wires = []
+    for k in range(nw):
+        mode, delays = gen_delays(rng)
+        if mode == 'zero' and rng.random() < 0.7:
+            mode, delays = gen_delays(rng)
+        loss = rng.choice([None, None, None, None, None, 0, 0.0, 0.25, 0.5, round(rng.random() * 0.5, 3)])
+        wires.append({'delay_mode': mode, 'delays': [d * scales[k] for d in delays], 'loss': loss})
+    tenths = rng.random() < 0.3
+    sources = []
+    for _ in range(rng.randint(1, 3)):
+        script = []
+        for _ in range(rng.randint(2, 8)):
+            gap = rng.choice([0, 0.1, 0.1, 0.2, 0.3, 0.7]) if tenths else rng.choice(GAPS + [round(rng.random() * 6, 3)])
+            burst = []
+            for _ in range(rng.choice([1, 1, 2, 2, 3, 5])):
+                # src >= 0: a shared packet sent by station src (it goes to every wire but src's own; src = nw: to all of them);
+                # src = -1 - k: a private packet put into wire k only
+                src = rng.randint(0, nw) if rng.random() < 0.7 else -1 - rng.randrange(nw)
+                burst.append([src, rng.randrange(3), rng.choice([40, 100, 1500])])
+            script.append((gap, burst))
+        sources.append(script)
+    return {'cid': f'F{cid}', 'kind': 'fanout', 'via': via, 'wires': wires, 'rseed': rng.randrange(1 << 30),
+            'grid_draws': rng.random() < 0.3, 'sources': sources}
+
+
+class FanDraws(WireDraws):
+    """WireDraws with one scripted delay callable PER WIRE (own list, own position)"""
+
+    def __init__(self, env, rseed, grid=False):
+        super().__init__(env, rseed, [0], grid)
+
+    def dist_for(self, delays):
+        n = [0]
+        def dist():
+            d = delays[n[0] % len(delays)]
+            n[0] += 1
+            for s in self.sinks:
+                if not s.taken:
+                    s.taken.append(0.0)
+                s.taken.append(d)
+            self.delay_calls[self.env.active_process].append((self.env.now, d))
+            return d
+        return dist
+
+
+class Station:
+    """terminal device at the far end of a wire / an endpoint of the hub"""
+    out = None
+
+    def __init__(self, env, name):
+        self.env, self.element_id, self.got = env, name, []
+
+    def put(self, packet):
+        self.got.append((self.env.now, packet))
+
+
+def run_fanout(c):
+    """-> ({sub-case id: FifoRun}, shared: {id(packet): [wire indices it was handed to]}) - one FifoRun per wire, all in one Environment"""
+    from onl.netdev import Hub
+    env = Environment()
+    wd = FanDraws(env, c['rseed'], c.get('grid_draws', False))
+    nw = len(c['wires'])
+    old = wire_mod.random
+    wire_mod.random = wd
+    runs, raised, blind = {}, None, []
+    handed = collections.defaultdict(list)       # id(packet) -> wires it entered, from the put taps
+    keep = []
+    try:
+        wires = [Wire(env, wd.dist_for(w['delays']), w['loss'], wire_id=k) for k, w in enumerate(c['wires'])]
+        stations = [Station(env, f'st{k}') for k in range(nw + 1)]
+        hub = None
+        if c['via'] == 'hub':
+            decoy = Hub(env, [Station(env, 'x0'), Station(env, 'x1')], [None, None])      # another hub lives beside it
+            hub = Hub(env, list(stations), list(wires) + [None])
+        for k, w in enumerate(wires):
+            r = FifoRun(env, w, snap_wire, Sink())
+            wd.sinks.append(r.draws)
+            w.out = Forward(r, stations[k].put)
+            blind += untap_if_blind(r)
+            runs[f"{c['cid']}w{k}"] = r
+        counter = [0]
+        def feed(script):
+            for gap, burst in script:
+                yield env.timeout(gap)
+                for src, flow, size in burst:
+                    counter[0] += 1
+                    if src < 0:
+                        wires[-1 - src].put(make_packet(env, counter[0], flow, size))
+                        continue
+                    p = make_packet(env, counter[0], flow, size, src=f'st{src}')
+                    keep.append(p)
+                    if hub is not None:
+                        stations[src].out.put(p)                 # = hub.put: the hub repeats the object to every other port
+                    else:
+                        for k in range(nw):
+                            if k != src:
+                                wires[k].put(p)
+        for script in c['sources']:
+            env.process(feed(script))
+        try:
+            if blind:
+                env.run()
+            else:
+                run_many(env, list(runs.values()))
+        except BaseException as x:          # the property says the run never raises
+            raised = f'{type(x).__name__}: {x}'
+    finally:
+        wire_mod.random = old
+    shared = {id(p) for p in keep}
+    for k, r in enumerate(runs.values()):
+        r.raised, r.wd, r.blind = raised, wd, blind
+        for _, p in r.arrivals:
+            if id(p) in shared:
+                handed[id(p)].append(k)
+    return runs, dict(handed), keep
+
+
+def oracle_fanout(c, runs, handed):
+    """C10 per wire: every wire of the fan-out is judged on its own puts, draws and deliveries by `oracle_wire` ("a packet entering a
+    Wire at time a for which the delay distribution yields d is delivered at max(a + d, delivery time of the previous packet), never
+    before a + d, never reordered and never held longer than that"; loss by the wire's own rate and draws)"""
+    fails = []
+    rl = list(runs.values())
+    for k, (sid, r) in enumerate(runs.items()):
+        name = f"wire {k} of {len(rl)} fed by one source {'through a Hub' if c['via'] == 'hub' else 'directly'} (the same Packet objects are inside several of the wires at once)"
+        for f in oracle_wire({'loss': c['wires'][k]['loss']}, r, name):
+            if f['signature'] in ('wire-delivery-time', 'wire-delivery-literal'):
+                # which other wire had the object and when it delivered it
+                import re
+                m = re.search(r'packet (\d+)', f['what'])
+                pid = int(m.group(1)) if m else None
+                obj = next((p for _, p in r.arrivals if p.packet_id == pid), None)
+                if obj is not None and id(obj) in handed:
+                    other = [(j, next((t for t, q in rl[j].departures if q is obj), None)) for j in handed[id(obj)] if j != k]
+                    f['what'] += '; the same object was also handed to ' + ', '.join(
+                        f'wire {j} (delivered there at {t!r})' if t is not None else f'wire {j} (not delivered there)' for j, t in other)
+            fails.append(f)
+    return fails
+
+
+def fanout_stats(c, runs, handed, keep):
+    """how often the shape the family is built for occurred: a shared object still queued in one wire's store at the instant another
+    wire delivers it (and, of these, with a delay longer than the rest of its wait: a wire that re-timed it from then would show)"""
+    st = collections.Counter()
+    rl = list(runs.values())
+    info = []
+    for r in rl:
+        delivered = {id(p): t for t, p in r.departures}
+        take, free, dl = {}, None, {}
+        proc = getattr(r.dev, 'action', None)
+        ds = [d for _, d in r.wd.delay_calls.get(proc, [])]
+        nd = 0
+        for a, p in r.arrivals:
+            h = a if free is None or a > free else free
+            take[id(p)] = (a, h)
+            if id(p) in delivered and nd < len(ds):
+                dl[id(p)] = ds[nd]; nd += 1
+            free = delivered.get(id(p), h)
+        info.append((delivered, take, dl))
+    st['shared_objects'] = len(handed)
+    st['shared_objects_in_3_or_more_wires'] = sum(1 for v in handed.values() if len(v) >= 3)
+    st['private_packets'] = sum(len(r.arrivals) for r in rl) - sum(len(v) for v in handed.values())
+    for pid, ws in handed.items():
+        hit = sens = False
+        for x in ws:
+            tx = info[x][0].get(pid)
+            if tx is None:
+                continue
+            for y in ws:
+                if y == x or pid not in info[y][0]:
+                    continue
+                a, h = info[y][1][pid]
+                if a < tx <= h:
+                    hit = True
+                    if info[y][2].get(pid, 0) > h - tx:
+                        sens = True
+        st['shared_objects_still_queued_in_one_wire_when_another_delivered_them'] += hit
+        st['...of_these_with_a_delay_longer_than_the_remaining_wait'] += sens
+    return st
+
+
 # ---- BEGIN wirek leg: the Wire as a process on the kernel MODEL (lean/OnlVerif/Net/WireOnK.lean, driver mode `wirek`) ----
 def run_wirek(ctx, cov=None, dis=None, orc=None):
     """Extra leg for Props/C10K.lean: the K program of the Wire, run at Float by the compiled driver, against the real Wire
@@ -1100,9 +1309,11 @@ def run(ctx):
         cases = [gen_case(rng, i) for i in range(600 if ctx.quick else 12000)]
         cases += [bb_case(rng, i) for i in range(240 if ctx.quick else 4000)]
         cases += [reconf_case(rng, i) for i in range(60 if ctx.quick else 1200)]      # a tenth of the replayed cases
+        cases += [fanout_case(rng, i) for i in range(150 if ctx.quick else 3000)]
     bbcases = [c for c in cases if c.get('kind') == 'bb']
     rccases = [c for c in cases if c.get('kind') == 'reconf']
-    cases = [c for c in cases if c.get('kind') not in ('bb', 'reconf')]
+    fancases = [c for c in cases if c.get('kind') == 'fanout']
+    cases = [c for c in cases if c.get('kind') not in ('bb', 'reconf', 'fanout')]
     text, allruns = [], {}
     for c in cases:
         runs = run_impl(c)
@@ -1197,7 +1408,54 @@ def run(ctx):
             f['trace'] = {w.name: {'entered': [(t, p.packet_id) for t, p in w.arrivals][:60], 'delivered': [(t, p.packet_id) for t, p in w.deliveries][:60]}
                           for w in (oracle_reconf(f['case'])[2] if f['case'] is not c else wires)}
             rcorc.append(f)
-    orc = bborc + rcorc + orc     # the black-box failures name the clause most directly: they get the replay files
+    # fan-out: every wire of a case is a model case of its own (its own puts / draws) and is judged by the per-wire oracle
+    fanhist, fanorc, fannontriv, fanlines, fanwires = collections.Counter(), [], 0, 0, 0
+    fanruns = {c['cid']: run_fanout(c) for c in fancases}
+    ftext = []
+    for c in fancases:
+        for k, (sid, r) in enumerate(fanruns[c['cid']][0].items()):
+            ftext.append(header(sid, c['wires'][k])); ftext += r.acts; ftext.append('END')
+    fmodel = split_cases(run_driver('fifo', '\n'.join(ftext) + '\n')) if ftext else {}
+    for c in fancases:
+        runs, handed, keep = fanruns[c['cid']]
+        for k, (sid, r) in enumerate(runs.items()):
+            a, b = r.obs, fmodel.get(sid)
+            fanwires += 1
+            fanlines += len(r.acts)
+            if r.blind:
+                dis.append({'case': c, 'detail': f'fan-out wire {sid} has no public {"/".join(sorted(set(r.blind)))}: it cannot be stepped against the LTS',
+                            'impl': [], 'model': (b or [])[:10]})
+            elif a != b:
+                i = next((i for i in range(max(len(a), len(b or []))) if i >= len(a) or not b or i >= len(b) or a[i] != b[i]), 0)
+                dis.append({'case': c, 'detail': f'fan-out wire {sid} line {i}: impl `{a[i] if i < len(a) else None}` model `{b[i] if b and i < len(b) else None}`',
+                            'impl': a[:300], 'model': (b or [])[:300]})
+            w = c['wires'][k]
+            fanhist['delay:' + w['delay_mode']] += 1
+            fanhist['loss:' + ('None' if w['loss'] is None else 'zero' if not w['loss'] else 'p')] += 1
+            fanhist['lost'] += len(r.lost)
+            fanhist['delivered'] += len(r.departures)
+        st = fanout_stats(c, runs, handed, keep)
+        fanhist.update(st)
+        fanhist['via:' + c['via']] += 1
+        fanhist[f'wires:{len(runs)}'] += 1
+        if st['shared_objects_still_queued_in_one_wire_when_another_delivered_them']:
+            fannontriv += 1
+        for f in oracle_fanout(c, runs, handed):
+            f['case'] = c
+            f['trace'] = {sid: r.obs[:200] for sid, r in runs.items()}
+            if shrunk < 3 and not ctx.replay:
+                shrunk += 1
+                sig = f['signature']
+                def still(cc):
+                    rr, hh, _ = run_fanout(cc)
+                    return any(g['signature'] == sig for g in oracle_fanout(cc, rr, hh))
+                small = shrink(c, ['sources'], still)
+                runs2, handed2, _ = run_fanout(small)
+                f2 = next((g for g in oracle_fanout(small, runs2, handed2) if g['signature'] == sig), None)
+                if f2:
+                    f = dict(f2, case=small, trace={sid: r.obs[:200] for sid, r in runs2.items()}, shrunk_from=c['cid'])
+            fanorc.append(f)
+    orc = bborc + rcorc + fanorc + orc     # the black-box failures name the clause most directly: they get the replay files
     cov = {'evaluations': len(cases), 'distinct_nontrivial': nontriv,
            'rule': 'seeded random wire/cable configurations (loss None/0/1/p, delay sequences constant/decreasing/zero/random/dyadic) x arrival workloads '
                    '(1-3 sources per direction, bursts, arrivals while earlier packets propagate, echo traffic on cables); non-trivial = distinct case '
@@ -1214,6 +1472,12 @@ def run(ctx):
                 'delivery instant, order and exactly-once judged with the values in force when the wire takes each packet; non-trivial = a packet was taken '
                 'under a reassigned loss rate or delayed by a re-pointed delay_dist', 'histogram': dict(sorted(rchist.items())),
         'sample': rccases[0] if rccases else None}
+    cov['fan_out_replayed_per_wire'] = {
+        'evaluations': len(fancases), 'distinct_nontrivial': fannontriv, 'wires_replayed_as_model_cases': fanwires, 'action_lines_replayed': fanlines,
+        'what': 'the same Packet object handed to 2-4 wires in one instant (directly / by a real Hub whose ports are the wires) next to private traffic per '
+                'wire; wires with different delay laws (scales 1/4..8), loss rates and backlogs; every wire replayed by the model on its own history and '
+                'judged by the per-wire oracle; non-trivial = a shared object was still queued in one wire when another wire delivered it',
+        'histogram': dict(sorted(fanhist.items())), 'sample': fancases[0] if fancases else None}
     cov.update({'translated': _PREP.get('translated', []), 'generated_files_rewritten': _PREP.get('rewritten', []),
                 'generated_diff_vs_pinned': _PREP.get('diff_vs_pinned', []), 'bridge_theorems': BRIDGES, 'hand_modelled': HAND_MODELLED})
     run_wirek(ctx, cov, dis, orc)            # wirek leg: appends its coverage, disagreements and oracle failures in place
